@@ -166,6 +166,24 @@ def jopt : Option String → Json
 def kvsToJson (kvs : List (String × Val)) : Json :=
   Json.arr (kvs.map fun (k, v) => Json.arr #[.str k, valToJson v]).toArray
 
+def jostr : Option String → Json
+  | some s => .str s
+  | none => .null
+
+/-- index operation as the recorder of harness/impl/corevm.py writes it -/
+def opToJson : Op → Json
+  | .addInst f h nm0 => Json.arr #[.str "addInst", .str f, .str h, jostr nm0]
+  | .setPos f h p nm => Json.arr #[.str "setPos", .str f, .str h, jnat p, jostr nm]
+  | .setStatus f h st nm => Json.arr #[.str "setStatus", .str f, .str h, .str (hstr st), jostr nm]
+  | .fork f h nm0 p nm => Json.arr #[.str "fork", .str f, .str h, jostr nm0, jnat p, jostr nm]
+  | .delHead f h => Json.arr #[.str "delHead", .str f, .str h]
+  | .dropHeads f => Json.arr #[.str "dropHeads", .str f]
+  | .rmHead f h => Json.arr #[.str "rmHead", .str f, .str h]
+  | .clearHeads f => Json.arr #[.str "clearHeads", .str f]
+  | .mainRestart f h nm0 => Json.arr #[.str "mainRestart", .str f, .str h, jostr nm0]
+  | .setFlowStatus f st => Json.arr #[.str "setFlowStatus", .str f, .str (fstr st)]
+  | .removeInst f => Json.arr #[.str "removeInst", .str f]
+
 def digest (s : VM) : Json :=
   let ix := s.ixs.ix
   let r := s.r
@@ -264,6 +282,7 @@ def runProgram (j : Json) : Except String Json := do
   | .ok _ s => vm := s
   | .error e _ => return Json.arr #[errToJson e]
   let mut table : List String := []
+  let mut seen : Nat := 0   -- the operations of `initialize_state` belong to the first event's segment, as in the recorder
   for e in evs do
     let ev := substEv table (← evOfJson (← e.getObjVal? "ev"))
     let choices ← match e.getObjVal? "choices" with
@@ -274,13 +293,16 @@ def runProgram (j : Json) : Except String Json := do
     match runToCompletion fuel ev vm with
     | .ok _ s =>
       vm := s
-      let d := digest vm
+      let opsNow := (vm.ixs.rlog.take (vm.ixs.rlog.length - seen)).reverse
+      seen := vm.ixs.rlog.length
+      let d := (digest vm).setObjVal! "ops" (Json.arr (opsNow.map opToJson).toArray)
       for k in ["out", "insts", "index", "actions", "gctx"] do
         table := walkUids ((d.getObjVal? k).toOption.getD .null) table
       outs := outs.push d
     | .error err s =>
       let d := errToJson err
-      outs := outs.push (d.setObjVal! "partial" (digest s))
+      let opsNow := (s.ixs.rlog.take (s.ixs.rlog.length - seen)).reverse
+      outs := outs.push (d.setObjVal! "partial" ((digest s).setObjVal! "ops" (Json.arr (opsNow.map opToJson).toArray)))
       return Json.arr outs
   return Json.arr outs
 
